@@ -555,6 +555,11 @@ def _corpus():
             out += ["".join(p) for p in itertools.product(small, repeat=n)]
         for n in (3, 4):
             out += ["".join(p) for p in itertools.product(core[:11], repeat=n)]
+        # dense where the lexical patterns decide: numbers (digits, point, exponent letter in both cases, signs) and quoted
+        # text (the quote characters, backslash, a letter, a blank)
+        for alpha, top in ((["0", "9", ".", "e", "E", "-", "+"], 5), (["'", '"', "`", "[", "]", "\\", "a", " "], 5), (["r", "R", "b", "N", "_", "'", '"', "x"], 4)):
+            for n in range(3, top + 1):
+                out += ["".join(p) for p in itertools.product(alpha, repeat=n)]
         r = random.Random(20260930)
         for _ in range(6000):
             out.append("".join(r.choice(small) for _ in range(r.randint(5, 14))))
@@ -564,6 +569,7 @@ def _corpus():
 
 
 _FP_TABLE = None
+_FP_KNOWN = set()   # every pattern text of the pinned tree's graphs (those need no fingerprint)
 
 
 def fingerprint(pat, flags=0):
@@ -588,7 +594,9 @@ def fp_table():
     global _FP_TABLE
     if _FP_TABLE is None:
         try:
-            _FP_TABLE = json.load(open(os.path.join(VERIF, "tools", "pattern_canon.json"), encoding="utf8"))
+            d = json.load(open(os.path.join(VERIF, "tools", "pattern_canon.json"), encoding="utf8"))
+            _FP_TABLE = d["table"]
+            _FP_KNOWN.update(d["known"])
         except Exception:
             _FP_TABLE = {}
     return _FP_TABLE
@@ -602,7 +610,7 @@ def canon_pattern(pat, flags=0):
         return _CANON_CACHE[key]
     pins = pinned_patterns()
     res = pat
-    known_texts = set(fp_table().values())
+    known_texts = set(fp_table().values()) | _FP_KNOWN
     if pat and pat not in pins and pat not in known_texts:
         fp = fingerprint(pat, flags)
         if fp is not None and fp in fp_table():
